@@ -251,7 +251,11 @@ Scenario ==
     /\ sc.mode = "create"
     /\ LET c == sc.cr
            cr == Create(c, 1) IN
-       \E o \in (IF IsLong(c) THEN {NoTam} ELSE TamperOps(cr.tok, c.name)) :
+       \* long all-digit v1 value: also the first delimiter moved to the front, which makes the
+       \* timestamp FIELD a verifying digit run beyond any integer conversion limit
+       \E o \in (IF IsLong(c)
+                  THEN {NoTam} \cup (IF c.ver = 1 THEN {[op |-> "move", i |-> Index(cr.tok, PIPE), b |-> 1]} ELSE {})
+                  ELSE TamperOps(cr.tok, c.name)) :
          LET token == IF o.op = "shift" THEN ShiftedTok(c.name, cr.tok, o.i) ELSE Apply(cr.tok, o) IN
          \E d \in Decodes(c, o, cr.tok) :
            /\ (o.op # "id" => token # cr.tok)
